@@ -419,6 +419,8 @@ def check_release(ctx: Ctx, ref: str, what: str) -> None:
         return
     t = tries[0]
     first = t.body[0]
+    while isinstance(first, ast.Try):          # a nested try (e.g. the `except Exception: log; raise` layer): its first statement is the entry
+        first = first.body[0]
     starts = [n for n in g.nodes if n.stmt is first and not n.in_finally and n.kind not in ('branch', 'join')]
     if not starts:
         raise AnalysisError(f'{f.loc(t)}: cannot locate the entry of the protected block of {f.short}')
